@@ -129,6 +129,21 @@ CHECKS.update({
     ),
 })
 
+CHECKS["C14"] = (
+    "specification reader (own regex + datetime constructors) as oracle for "
+    "decode_datetime / loads, and as independent reader of encoder output",
+    "Exhaustive field boundaries (every day of 11 boundary years in both date "
+    "forms, all hours and minutes, seconds 0/1/58/59/60, fractions of 1-6 "
+    "digits, zone none/Z/+-H/+-HH/+-HH:MM whole and half hours) plus random "
+    "date-times x 5 dialects through decoder.decode_datetime and through "
+    "loads in 5 syntactic contexts; encode side: generated temporal values x 4 "
+    "encoders x options must be refused or denote the same instant at the "
+    "same precision according to the reference reader.",
+    "vlib/datespec.py is written from the BNF forms; day-of-year 366 in "
+    "non-leap years and dateutil-only ISO forms are not generated.",
+    "DESIGN.md section 4 C14",
+)
+
 NOT_YET = "check not built yet in this round (work in progress; see DESIGN.md section 8 build order)"
 
 ALL = [f"C{n:02d}" for n in range(1, 21)]
